@@ -178,5 +178,30 @@ def rule_set_identity(prog):
     return res
 
 
+def rule_idle_reset(prog):
+    """R-VK-IDLE-RESET: on-idle measures the time since the last input event of any kind: handle_input_event sets
+    ticks_since_idle to 0 on every path, not only for some event values."""
+    from kq.core import is_const, const_val, proj_fields
+    res = RuleResult("R-VK-IDLE-RESET", "every input event restarts the idle time", floor=1)
+    f = prog.fn("kanata_state_machine::kanata::Kanata::handle_input_event")
+    res.fn(f)
+    K = "kanata_state_machine::kanata::Kanata"
+    stores = []
+    for bi, si, st in f.all_rvalues():
+        pf = proj_fields(st["p"])
+        if pf and pf[-1][0] == K and pf[-1][2] == "ticks_since_idle" and st["rv"]["k"] == "use" and is_const(st["rv"]["a"]) and const_val(st["rv"]["a"]) == 0:
+            stores.append(bi)
+    reach = f.reach_from(0, avoid=stores)
+    rets = [b for b in f.reachable() if f.term(b)["k"] == "return"]
+    ok = bool(stores) and (0 in stores or not any(r in reach for r in rets))
+    res.inst("reset-on-every-path", stores=len(stores), ok=ok)
+    res.oblige(ok)
+    if not ok:
+        res.viol("reset-on-every-path", f.loc,
+                 "handle_input_event can return without resetting ticks_since_idle: some input events (e.g. releases) do not count as "
+                 "activity, so an on-idle action fires before the stated idle time has passed since the last event")
+    return res
+
+
 def run_all(prog):
-    return [rule_single(prog), rule_once(prog), rule_rearm(prog), rule_set_identity(prog)]
+    return [rule_single(prog), rule_once(prog), rule_rearm(prog), rule_set_identity(prog), rule_idle_reset(prog)]
